@@ -16,9 +16,9 @@ import (
 // pointer escaping, non-ASCII, spaces and HTML characters; numbers are
 // literals chosen to expose any conversion; strings need JSON escaping.
 var (
-	KeyPool   = []string{"a", "b", "c", "d", "0", "1", "-1", "x/y", "m~n", "~1", "é", "k k", "-", "<&>", "a/b~c", "e f", "%d"}
+	KeyPool   = []string{"a", "b", "c", "d", "0", "1", "-1", "x/y", "m~n", "~1", "é", "k k", "-", "<&>", "a/b~c", "e f", "%d", "b\\s"}
 	PlainKeys = []string{"a", "b", "c", "d", "e", "f", "k0", "k1"}
-	NumPool   = []string{"0", "1", "-1", "2", "10", "1.0", "1.5", "-0", "1e2", "1E400", "12345678901234567890123", "0.1", "-2.50", "1e-7", "100000000000000000000", "0.30000000000000004", "2E+2"}
+	NumPool   = []string{"0", "1", "-1", "2", "10", "1.0", "1.5", "-0", "1e2", "1E400", "12345678901234567890123", "0.1", "-2.50", "1e-7", "100000000000000000000", "0.30000000000000004", "2E+2", "9007199254740992", "9007199254740993", "1700000000", "1700000001"}
 	StrPool   = []string{"", "a", "b", "x y", "é", "<&>", "q\"uote", "back\\slash", "line\nfeed", "😀", " ", "tab\there", "</script>", "a&b", "u v w", "\u0001ctl", "/", "~", "25% off %s", "%!v(x)"}
 )
 
@@ -30,6 +30,11 @@ type Cfg struct {
 }
 
 var Default = Cfg{Keys: KeyPool, Nums: NumPool, Strs: StrPool, Width: 4, Depth: 3}
+
+// WithEmptyName is Default plus the empty member name - a perfectly good name
+// for merge patches and equality (for JSON Pointer paths it would be the empty
+// reference token, which the Apply properties place outside their domain).
+var WithEmptyName = Cfg{Keys: append(append([]string{}, KeyPool...), "", ""), Nums: NumPool, Strs: StrPool, Width: 4, Depth: 3}
 
 // Plain avoids everything that needs escaping and every exotic number.
 var Plain = Cfg{Keys: PlainKeys, Nums: []string{"0", "1", "2", "7", "10", "-3", "1.5", "250"}, Strs: []string{"", "a", "b", "xyz", "hello", "v1"}, Width: 4, Depth: 3}
@@ -139,10 +144,14 @@ func (c Cfg) Mutate(t *rapid.T, v *ref.V, depth int) *ref.V {
 				} else {
 					out.Set(rapid.SampledFrom(c.Keys).Draw(t, "ak2"), c.Value(depth).Draw(t, "nv2"))
 				}
-			case 5: // replace an existing member's value (often a type change)
+			case 5: // replace an existing member's value (often a type change; a number often by a close neighbour)
 				if len(out.Keys) > 0 {
 					k := rapid.SampledFrom(out.Keys).Draw(t, "ck")
-					out.Set(k, c.Value(depth).Draw(t, "cv"))
+					if cv, _ := out.Get(k); cv.K == ref.KNum && rapid.Bool().Draw(t, "near") {
+						out.Set(k, ref.Num(Neighbour(t, cv.Num, "nb")))
+					} else {
+						out.Set(k, c.Value(depth).Draw(t, "cv"))
+					}
 				}
 			case 6: // a new nested object that shares nothing yet
 				out.Set(rapid.SampledFrom(c.Keys).Draw(t, "nk"), c.Object(max(depth, 1)).Draw(t, "no"))
@@ -502,4 +511,39 @@ func (g *OpGen) Seq(t *rapid.T, doc *ref.V, o ref.Opts, minOps, maxOps, tail int
 		st = trial
 	}
 	return ops
+}
+
+// Neighbour returns a number literal close to lit: its last mantissa digit
+// bumped, or a difference far below float64 resolution appended - the pairs
+// that a comparison through float64 (or with a tolerance) cannot tell apart.
+func Neighbour(t *rapid.T, lit string, label string) string {
+	mant, exp := lit, ""
+	if i := strings.IndexAny(lit, "eE"); i >= 0 {
+		mant, exp = lit[:i], lit[i:]
+	}
+	switch Uniform(t, 0, 2, label) {
+	case 0: // bump the last digit
+		b := []byte(mant)
+		for i := len(b) - 1; i >= 0; i-- {
+			if b[i] >= '0' && b[i] <= '9' {
+				if b[i] == '9' {
+					b[i] = '8'
+				} else {
+					b[i]++
+				}
+				break
+			}
+		}
+		return string(b) + exp
+	case 1: // a difference in the 20th decimal place
+		if strings.Contains(mant, ".") {
+			return mant + "00000000000000000001" + exp
+		}
+		return mant + ".00000000000000000001" + exp
+	default: // for integers: a long literal differing in the last place
+		if !strings.Contains(mant, ".") && exp == "" && mant != "0" && mant != "-0" {
+			return mant + "0000000000000001"
+		}
+		return mant + exp
+	}
 }
